@@ -218,9 +218,10 @@ example : fuseOKR [(.str "a", .int 1), (.str "b", .tuple [.fn 0, .str "a"]), (.s
 example : subs (.str "y") (.tuple [.fn 1, .str "x"]) (.tuple [.fn 0, .str "x", .str "y"]) =
     .tuple [.fn 0, .str "x", .tuple [.fn 1, .str "x"]] := by decide
 
-/-- `subs` does *not* look inside dict values or non-task tuples (the source of the known findings) -/
+/-- `subs` looks inside dict values (since the `fix:` "legacy dict values are converted") but *not* inside non-task
+    tuples (the source of the known findings) -/
 example : subs (.str "a") (.int 1) (.tuple [.fn 0, .dict [(.str "x", .str "a")], .tuple [.int 1, .str "a"]]) =
-    .tuple [.fn 0, .dict [(.str "x", .str "a")], .tuple [.int 1, .str "a"]] := by decide
+    .tuple [.fn 0, .dict [(.str "x", .int 1)], .tuple [.int 1, .str "a"]] := by decide
 
 /-! non-vacuity -/
 example : cull [(.str "x", .int 1), (.str "y", .tuple [.fn 0, .str "x"]), (.str "out", .tuple [.fn 1, .str "x", .int 10])]
